@@ -645,6 +645,31 @@ func c06Case(r *mon.R, s *c06Suite, idx int, seen *c06Seen) {
 		want := s.gt.Point().Add(c.pair(p1, q), c.pair(p2, q))
 		c.judge("additive/same-root", []*c06Opnd{p, p1, p2, q}, "e((a1+a2)P,Q) = e(a1P,Q) + e(a2P,Q)", c.pair(p, q), want, nil)
 	})
+	c.guard("Pair", "additive/same-element", func() {
+		// both summands are the SAME group element (or opposite elements) reached through different computations, so that
+		// their internal representations differ: the sum is a doubling (or the identity) that the addition must recognise
+		f1, f2 := gen.Pick(rng, c06Forms), gen.Pick(rng, c06Forms)
+		ka, kb := a, b
+		if ka.Sign() == 0 {
+			ka = big.NewInt(3)
+		}
+		if kb.Sign() == 0 {
+			kb = big.NewInt(5)
+		}
+		p1, p2, q := c.opForm(s.g1, c.r1, ka, f1), c.opForm(s.g1, c.r1, ka, f2), c.q(kb)
+		sum := s.g1.Point().Add(p1.mk(), p2.mk())
+		r.NoteAdd("pairings_computed", 2)
+		c.judge("additive/left-same-element", []*c06Opnd{p1, p2, q}, "e(P+P',Q) = e(P,Q) + e(P',Q) with P' = P in another representation", S.Pair(sum, q.mk()), s.gt.Point().Add(c.pair(p1, q), c.pair(p2, q)), nil)
+		p3 := c.opForm(s.g1, c.r1, new(big.Int).Sub(s.q, new(big.Int).Mod(ka, s.q)), f2)
+		c.judge("additive/left-opposite-element", []*c06Opnd{p1, p3, q}, "e(P+P',Q) = O_T with P' = -P in another representation", S.Pair(s.g1.Point().Add(p1.mk(), p3.mk()), q.mk()), gtNull(), nil)
+		c.judge("additive/left-difference-of-same-element", []*c06Opnd{p1, p2, q}, "e(P-P',Q) = O_T with P' = P in another representation", S.Pair(s.g1.Point().Sub(p1.mk(), p2.mk()), q.mk()), gtNull(), nil)
+		pp := c.p(ka)
+		q1, q2 := c.opForm(s.g2, c.r2, kb, f1), c.opForm(s.g2, c.r2, kb, f2)
+		c.judge("additive/right-same-element", []*c06Opnd{pp, q1, q2}, "e(P,Q+Q') = e(P,Q) + e(P,Q') with Q' = Q in another representation", S.Pair(pp.mk(), s.g2.Point().Add(q1.mk(), q2.mk())), s.gt.Point().Add(c.pair(pp, q1), c.pair(pp, q2)), nil)
+		q3 := c.opForm(s.g2, c.r2, new(big.Int).Sub(s.q, new(big.Int).Mod(kb, s.q)), f2)
+		c.judge("additive/right-opposite-element", []*c06Opnd{pp, q1, q3}, "e(P,Q+Q') = O_T with Q' = -Q in another representation", S.Pair(pp.mk(), s.g2.Point().Add(q1.mk(), q3.mk())), gtNull(), nil)
+		c.judge("additive/right-difference-of-same-element", []*c06Opnd{pp, q1, q2}, "e(P,Q-Q') = O_T with Q' = Q in another representation", S.Pair(pp.mk(), s.g2.Point().Sub(q1.mk(), q2.mk())), gtNull(), nil)
+	})
 	c.guard("Pair", "additive/neg", func() {
 		p, q := c.p(a), c.q(b)
 		pn, qn := c.p(new(big.Int).Neg(a)), c.q(new(big.Int).Neg(b))
